@@ -68,14 +68,28 @@ Definition wexec (w : N) (D : list N) (s : wstep) (g : gst) : gst :=
           (fupd (cch g) c (fold_left (fun m k => aset m k w) D (cch g c)))
   end.
 
-(* publication order of QueryServerWriteTransaction::commit and the commits below it *)
-Definition wcommit : list wstep :=
+(* publication order of QueryServerWriteTransaction::commit and the commits below it,
+   BEFORE /repo 953436b *)
+Definition wcommit_head : list wstep :=
   [ WDbTs; WPub CCid; WPub CRfc; WPub CSchema;
     WPub CDinfo; WPub CSysCfg; WPub CFeat; WPub CPhase; WPub CDyn;
     WPub CKeyProv; WPub CAcp;
     WRuvDb; WFlush; WSqlCommit;
     WPub COpTs; WPub CName; WPub CIdxEx; WPub CIdl; WPub CAllids; WPub CMaxid; WPub CKeyh;
     WPub CEntry; WPub CRuv; WPub CIdxmeta ].
+
+(* the order since /repo 953436b (fix for C04: backend commit BEFORE the in-memory
+   publications); [wcommit_head] above is the order of the tree before that fix *)
+Definition wcommit_c04 : list wstep :=
+  [ WDbTs; WPub CCid; WPub CRfc;
+    WRuvDb; WFlush; WSqlCommit;
+    WPub COpTs; WPub CName; WPub CIdxEx; WPub CIdl; WPub CAllids; WPub CMaxid; WPub CKeyh;
+    WPub CEntry; WPub CRuv; WPub CIdxmeta;
+    WPub CSchema; WPub CDinfo; WPub CSysCfg; WPub CFeat; WPub CPhase; WPub CDyn;
+    WPub CKeyProv; WPub CAcp ].
+
+Definition c04_fixed : bool := true.   (* /repo 953436b: the C04 fix is committed *)
+Definition wcommit : list wstep := if c04_fixed then wcommit_c04 else wcommit_head.
 
 (* ---------------------------------------------------------------- reader *)
 Inductive rstep :=
@@ -198,10 +212,15 @@ Definition writer_first (s : list bool) : bool := Nat.leb (length wcommit) (lead
 Definition rsegs : list (N * nat) :=
   [ (1, 1%nat); (2, 1%nat); (3, 1%nat); (4, 1%nat); (5, 4%nat); (6, 2%nat); (7, 3%nat);
     (8, 1%nat); (9, 2%nat) ].
-Definition wsegs : list (N * nat) :=
+Definition wsegs_head : list (N * nat) :=
   [ (101, 1%nat); (102, 1%nat); (103, 1%nat); (104, 1%nat); (105, 5%nat); (106, 1%nat);
     (107, 1%nat); (108, 2%nat); (109, 1%nat); (110, 2%nat); (111, 5%nat); (112, 1%nat);
     (113, 1%nat); (114, 1%nat) ].
+Definition wsegs_c04 : list (N * nat) :=
+  [ (101, 1%nat); (102, 1%nat); (103, 1%nat); (108, 2%nat); (109, 1%nat); (110, 2%nat);
+    (111, 5%nat); (112, 1%nat); (113, 1%nat); (114, 1%nat); (104, 1%nat); (105, 5%nat);
+    (106, 1%nat); (107, 1%nat) ].
+Definition wsegs : list (N * nat) := if c04_fixed then wsegs_c04 else wsegs_head.
 
 (* harness schedules name SEGMENTS (pause to pause); expand to model steps *)
 Fixpoint expand (toks : list bool) (rl wl : list nat) : list bool :=
